@@ -406,6 +406,79 @@ class Gen:
             else: out.append("idc %s feas %s %s %s %s" % (rt, Q, self.vec(qd), self.vec(qdd), self.fext(ops) if r.random() < 0.4 else "F 0"))
             if r.random() < 0.2: out.append("scramble %d" % r.randint(0, 9))
         return out
+    def _perturb(self, q, coords, sph, amp):
+        """a configuration near q: angles / translations moved by at most amp, quaternions re-normalised"""
+        ndof = len(coords); q2 = list(q)
+        for i, c in enumerate(coords):
+            if c != "s": q2[i] = q[i] + float(self.dy(-amp, amp))
+        for o, qi in enumerate(sph):
+            v = [q[qi] + float(self.dy(-amp, amp)) / 2, q[qi + 1] + float(self.dy(-amp, amp)) / 2, q[qi + 2] + float(self.dy(-amp, amp)) / 2, q[ndof + o]]
+            n = sum(x * x for x in v) ** 0.5 or 1.0
+            q2[qi], q2[qi + 1], q2[qi + 2], q2[ndof + o] = [x / n for x in v]
+        return q2
+    def case_C17(self, idx):
+        """iterative solvers: both InverseKinematics overloads (targets = poses at a configuration Q*, optionally offset to be
+        unreachable), CalcAssemblyQ from perturbed configurations, CalcAssemblyQDot"""
+        r = self.r
+        mode = r.choice(["ik", "ik", "asm"])
+        f3 = lambda v: " ".join(fl(x) for x in v)
+        if mode == "ik":
+            lines, ops, coords, sph = self._model_nonempty(nmin=2, nmax=5, kinds=[k for k in self.JOINTS if k not in ("crztx", "fixed")] + ["fixed"])
+            out = ["case x"] + lines
+            refs = [str(k) for k in range(len(ops))]
+            for _ in range(4):
+                qs, _, _, _ = self.state(coords, sph)
+                q0 = self._perturb(qs, coords, sph, float(r.choice([0.05, 0.2, 0.5])))
+                unreachable = r.random() < 0.2
+                nt = r.randint(1, 2)
+                if r.random() < 0.45:
+                    self.count("calls", "ik1" + ("_unreachable" if unreachable else ""))
+                    tg = []
+                    for _k in range(nt):
+                        off = [self.dy(3, 6) * r.choice((1, -1)) for _ in range(3)] if unreachable else [Fr(0)] * 3
+                        tg.append("%s %s %s" % (r.choice(refs), self.pt(), f3(off)))
+                    tail = "%d %s %s %s %s %s %d" % (nt, " ".join(tg), self.vec(qs), self.vec(q0),
+                               r.choice(["1e-12", "1e-9", "1e-6"]), r.choice(["0.01", "0.1", "0.001"]), r.choice([30, 55, 120]))
+                    out.append("ik1 step " + tail); out.append("ik1 full " + tail)
+                else:
+                    self.count("calls", "ik2" + ("_unreachable" if unreachable else ""))
+                    tg = []
+                    for _k in range(nt):
+                        kind = r.choice(["full", "orient", "pos", "pos", "posxy", "posz", "comxy"]); self.count("calls", "ik2_" + kind)
+                        off = [self.dy(3, 6) * r.choice((1, -1)) for _ in range(3)] if (unreachable and kind != "orient") else [Fr(0)] * 3
+                        tg.append("%s %s %s %s %s" % (kind, r.choice(refs), self.pt(), f3(off), r.choice(["1.0", "0.5", "2.0"])))
+                    stol = r.choice(["1e-12", "1e-10"]); ctol = r.choice(["1e-12", "1e-8", "1e-4"])
+                    if not unreachable and r.random() < 0.25:
+                        # start within the constraint tolerance of a solution: must be returned as it is
+                        self.count("calls", "ik2_start_within_tol")
+                        q0 = [x + (r.uniform(-1e-7, 1e-7) if i < len(coords) and coords[i] != "s" else 0.0) for i, x in enumerate(qs)]
+                        stol = "1e-12"; ctol = "1e-4"
+                    tail = "%d %s %s %s %s %s %s %d" % (nt, " ".join(tg), self.vec(qs), self.vec(q0), stol, ctol,
+                               r.choice(["1e-6", "1e-4", "1e-9"]), r.choice([50, 150, 300]))
+                    out.append("ik2 step " + tail); out.append("ik2 full " + tail)
+                if r.random() < 0.2: out.append("scramble %d" % r.randint(0, 9))
+            return out
+        lines, ops, coords, sph = self._model_nonempty(nmin=2, nmax=6, kinds=[k for k in self.JOINTS if k not in ("crztx",)] + ["float", "sph"])
+        q0, _, _, _ = self.state(coords, sph)
+        n = len(coords)
+        cl, rows, has_loop = self.cset(ops, coords, sph, q0, allow_contacts=(r.random() < 0.3), max_rows=max(1, min(6, n - 1)))
+        out = ["case x"] + lines + cl
+        if rows == 0: out.append("contact 0 0.0 0.0 0.0 0.0 0.0 1.0"); rows = 1
+        for _ in range(4):
+            wts = [float(r.choice([1, 1, 2, 0.5, 4])) for _ in range(n)]
+            if r.random() < 0.6:
+                self.count("calls", "asmq")
+                qi = self._perturb(q0, coords, sph, float(r.choice([0.0, 0.02, 0.1, 0.3])))
+                out.append("csolver %d" % r.randint(1, 3))
+                tail = "%s %s %s %d" % (self.vec(qi), self.vec(wts), r.choice(["1e-10", "1e-8", "1e-6"]), r.choice([20, 50, 100]))
+                out.append("asmq step " + tail); out.append("asmq full " + tail)
+            else:
+                self.count("calls", "asmqd")
+                _, qd, _, _ = self.state(coords, sph)
+                out.append("csolver %d" % r.randint(1, 3))
+                out.append("asmqd %s %s %s" % (self.vec(q0), self.vec(qd), self.vec(wts)))
+            if r.random() < 0.2: out.append("scramble %d" % r.randint(0, 9))
+        return out
     def case_C09(self, idx): return self._cons_case(["cjac", "cerr", "cverr", "csys", "scramble"], ncalls=7)
     def case_C08(self, idx): return self._cons_case(["fdc", "fdc", "csys", "scramble"], ncalls=6)
     def case_C10(self, idx): return self._cons_case(["imp", "imp", "scramble"], ncalls=5)
